@@ -250,3 +250,16 @@ def subtrees(t):
     for c in t[1:]:
         if isinstance(c, list):
             yield from subtrees(c)
+
+
+def divisor_symbols(t, acc=None):
+    """symbols used directly as divisors (E/psym, psym**-n)"""
+    acc = set() if acc is None else acc
+    if t[0] == "pinv":
+        acc.add(t[1])
+    elif t[0] == "div" and t[2][0] == "sym":
+        acc.add(t[2][1])
+    for c in t[1:]:
+        if isinstance(c, list):
+            divisor_symbols(c, acc)
+    return acc
